@@ -47,6 +47,15 @@ class LTbase(Enum):
     ONE_HUNDRED_SECONDS = 3
 
 
+# Unit of the LT multiplier per base in milliseconds (EN 302 636-4-1 clause 9.6.4), finest first.
+_LT_UNITS_MS = (
+    (LTbase.FIFTY_MILLISECONDS, 50),
+    (LTbase.ONE_SECOND, 1000),
+    (LTbase.TEN_SECONDS, 10000),
+    (LTbase.ONE_HUNDRED_SECONDS, 100000),
+)
+
+
 @dataclass(frozen=True)
 class LT:
     """
@@ -78,30 +87,21 @@ class LT:
         value : int
             Lifetime in milliseconds.
         """
-        if value < 50:
+        if value >= 1000000:
             multiplier = 0
-            base = LTbase.FIFTY_MILLISECONDS
-        elif value < 100:
-            multiplier = 1
-            base = LTbase.FIFTY_MILLISECONDS
-        elif value < 500:
-            multiplier = int(value / 50 % 64)
-            base = LTbase.FIFTY_MILLISECONDS
-        elif value < 1000:
-            multiplier = 0
-            base = LTbase.ONE_SECOND
-        elif value < 10000:
-            multiplier = int(value / 1000 % 64)
-            base = LTbase.ONE_SECOND
-        elif value < 100000:
-            multiplier = int(value / 10000 % 64)
-            base = LTbase.TEN_SECONDS
-        elif value < 1000000:
-            multiplier = int(value / 100000 % 64)
             base = LTbase.ONE_HUNDRED_SECONDS
         else:
+            # Largest representable lifetime not above the request (0 below 50 ms);
+            # when two bases encode the same lifetime the coarser one is used.
             multiplier = 0
-            base = LTbase.ONE_HUNDRED_SECONDS
+            base = LTbase.FIFTY_MILLISECONDS
+            encoded = 0
+            for candidate_base, unit in _LT_UNITS_MS:
+                steps = min(value // unit, 63)
+                if steps > 0 and steps * unit >= encoded:
+                    multiplier = steps
+                    base = candidate_base
+                    encoded = steps * unit
 
         return LT(multiplier=multiplier, base=base)
 
